@@ -129,7 +129,8 @@ pub fn compact(cells: &[u64]) -> Result<Vec<u64>, String> {
 
                     // Check that all expected siblings are present with correct stride
                     for j in 1..expected_children {
-                        let expected_cell = cell + (j as u64) * stride;
+                        // Wrapping: an index with stray high bits must not overflow here
+                        let expected_cell = cell.wrapping_add((j as u64) * stride);
                         if current_cells[i + j] != expected_cell {
                             has_all_siblings = false;
                             break;
